@@ -202,7 +202,7 @@ func (g *G) schedule(o *copts) {
 func runComputeProps(prop string) func(h *H) {
 	return func(h *H) {
 		g := h.g
-		n := h.budget(250, 6000)
+		n := h.budget(250, 2000)
 		wd := 20 * time.Second
 		outcomes := map[string]int{}
 		for k := 0; k < n; k++ {
